@@ -520,8 +520,12 @@ def check(pid: str, tier: str, base_seed: int, workers: int | None = None) -> in
                 total["harness"].append({"seed": slot["seed"], "error": f"shrink failed: {exc!r}", "trace": slot["trace"]})
                 continue
             if final["violation"] is None:
-                total["harness"].append({"seed": slot["seed"], "error": "violation did not reproduce after shrinking", "trace": best})
-                continue
+                # the violation was observed in a real simulated execution but does not replay: the tree under test
+                # is itself nondeterministic (e.g. depends on object addresses).  It is still reported - with the
+                # unminimised choice list and a note that the replay is unstable - never downgraded to a harness error.
+                final = dict(final, violation=dict(slot["violation"], replay_unstable=True))
+                best, nruns = slot["trace"], 0
+                total["unstable_replays"] = total.get("unstable_replays", 0) + 1
             if any(r["signature"] == final["violation"]["signature"] for r in reported):
                 continue  # same minimised violation as one already reported
             path = write_replay(pid, slot["profile"], slot["seed"], best, final, nruns)
@@ -534,6 +538,9 @@ def check(pid: str, tier: str, base_seed: int, workers: int | None = None) -> in
     for sig, what in sorted(known.items()):
         print(f"KNOWN-FINDING: property={pid} {what} [signature: {sig}; seen {total['known_seen'].get(sig, 0)}x this run]")
     harness_fail = bool(total["harness"]) or pool_failed or not det["in_process_equal"] or not det["fresh_equal"]
+    if total.get("unstable_replays"):
+        print(f"NOTE: {total['unstable_replays']} violation(s) were observed but do not replay exactly: the tree under test "
+              f"behaves nondeterministically (object addresses, hash order); replay files hold the observed choice lists")
     for n, h in enumerate(total["harness"][:3]):
         print(f"HARNESS: seed={h['seed']} {h['error'][-1500:] if n == 0 else h['error'][-300:]}", flush=True)
     if pool_failed:
